@@ -127,6 +127,27 @@ class Obj:
         return f"{self.cls.name if self.cls else self.kind}({', '.join(f'{k}={v!r}' for k, v in self.fields.items() if k != 'lineno')})"
 
 
+def _live(seq):
+    """iterate a list by position, looking at the live object each time (what a Python `for` does)"""
+    i = 0
+    while i < len(seq):
+        yield seq[i]
+        i += 1
+
+
+class _LiveEnumerate:
+    """enumerate(<list>) over the live list"""
+
+    def __init__(self, seq, start=0):
+        self.seq, self.start = seq, start
+
+    def __iter__(self):
+        i = 0
+        while i < len(self.seq):
+            yield (self.start + i, self.seq[i])
+            i += 1
+
+
 class CircuitProblem(Exception):
     """the emitted gate list cannot be given an operator (it relies on context outside the sequence)"""
 
@@ -158,6 +179,7 @@ class Scenario:
     fresh: List[RegSym] = field(default_factory=list)
     recorded: List[Tuple] = field(default_factory=list)  # for SDK gate calls (toolbox)
     overrides: Dict[str, Any] = field(default_factory=dict)  # repo function name -> checker-side semantics
+    externals: Dict[str, Any] = field(default_factory=dict)  # dotted library name -> checker-side semantics for this scenario
 
 
 class Interp:
@@ -249,6 +271,8 @@ class Interp:
             return
         if isinstance(st, ast.For):
             it = self.eval(st.iter, env, m)
+            if isinstance(it, list):
+                it = _live(it)  # a list is iterated as Python does: by position in the live object, so a mutation during the loop shows
             n = 0
             for item in it:
                 n += 1
@@ -454,6 +478,10 @@ class Interp:
             return out
         if isinstance(e, ast.Lambda):
             return ("lambda", e, env, m)
+        if isinstance(e, ast.NamedExpr) and isinstance(e.target, ast.Name):
+            v = self.eval(e.value, env, m)
+            env[e.target.id] = v
+            return v
         raise AnalysisError(f"circuit evaluation: expression form {type(e).__name__} outside the enumerated idioms: {src(e)[:60]}")
 
     def _hashable(self, k):
@@ -575,6 +603,8 @@ class Interp:
         if getattr(o, "_nqsa_model", False):
             return getattr(o, attr)  # a model object supplied by the rule (plain Python, its methods are called as they are)
         if isinstance(o, Obj):
+            if attr == "__class__" and o.cls is not None:
+                return ("class", o.cls)
             if o.kind == "self":
                 if attr == "_debug":
                     return self.sc.debug
@@ -653,7 +683,8 @@ class Interp:
     def call(self, e: ast.Call, env, m):
         fname = dotted(e.func)
         # builtins
-        if fname in ("len", "range", "list", "tuple", "int", "float", "abs", "min", "max", "sum", "enumerate", "zip", "reversed", "sorted", "str", "bool", "all", "any", "set", "slice"):
+        if fname in ("len", "range", "list", "tuple", "int", "float", "abs", "min", "max", "sum", "enumerate", "zip", "reversed", "sorted", "str", "bool", "all", "any", "set", "slice",
+                     "divmod", "round", "dict", "frozenset", "bytes", "pow") and fname not in env:
             args = []
             for a in e.args:
                 if isinstance(a, ast.Starred):
@@ -666,10 +697,21 @@ class Interp:
             if fname == "len" and len(args) == 1 and isinstance(args[0], Obj) and args[0].cls is not None and self.repo.lookup(args[0].cls, "__len__") is not None:
                 r_ = self.repo.lookup(args[0].cls, "__len__")
                 return self.call_function(r_[0].module, r_[1], [], {}, self_obj=args[0])
+            if fname == "enumerate" and args and isinstance(args[0], list):
+                return _LiveEnumerate(args[0], args[1] if len(args) > 1 else 0)
             f = {"len": len, "range": lambda *a: list(range(*a)), "list": list, "tuple": tuple, "int": int, "float": float, "abs": abs, "min": min, "max": max,
                  "sum": sum, "enumerate": lambda x, *a: list(enumerate(x, *a)), "zip": lambda *a: list(zip(*a)), "reversed": lambda x: list(reversed(x)),
-                 "sorted": sorted, "str": str, "bool": bool, "all": all, "any": any, "set": set, "slice": slice}[fname]
-            return f(*args)
+                 "sorted": sorted, "str": str, "bool": bool, "all": all, "any": any, "set": set, "slice": slice,
+                 "divmod": divmod, "round": round, "dict": dict, "frozenset": frozenset, "bytes": bytes, "pow": pow}[fname]
+            kw = {}
+            for k in e.keywords:
+                if k.arg is None:
+                    raise AnalysisError(f"circuit evaluation: ** in a call of {fname}")
+                v = self.eval(k.value, env, m)
+                if isinstance(v, tuple) and v and v[0] in ("lambda", "closure", "func", "boundmethod"):
+                    v = (lambda fv: (lambda *a, **k_: self.apply(fv, list(a), k_, e, m)))(v)
+                kw[k.arg] = v
+            return f(*args, **kw)
         if fname in ("count", "itertools.count"):
             # an unbounded counter is cut off after 65 values; a search that needs more exceeds the loop bound and is reported
             args = [self.eval(a, env, m) for a in e.args]
@@ -780,8 +822,29 @@ class Interp:
                 except _Return as r:
                     return r.value
                 return None
+            if kind == "lambda":
+                _, lam, cenv, cm = f
+                env2 = dict(cenv)
+                a_ = lam.args
+                if a_.vararg or a_.kwarg or a_.kwonlyargs:
+                    raise AnalysisError("circuit evaluation: lambda with * / ** / keyword-only parameters")
+                names = [x.arg for x in a_.posonlyargs + a_.args]
+                defaults = a_.defaults
+                for nm, d in zip(names[len(names) - len(defaults):], defaults):
+                    env2[nm] = self.eval(d, cenv, cm)
+                if len(args) > len(names):
+                    raise EvalRaise("TypeError", "too many arguments for lambda")
+                for nm, v in zip(names, args):
+                    env2[nm] = v
+                env2.update(kwargs)
+                missing = [nm for nm in names if nm not in env2]
+                if missing:
+                    raise EvalRaise("TypeError", f"lambda missing {missing}")
+                return self.eval(lam.body, env2, cm)
             if kind == "external":
                 name = f[1]
+                if name in getattr(self.sc, "externals", {}):
+                    return self.sc.externals[name](*args, **kwargs)  # a library call the rule models for this scenario (clock, sleep, ...)
                 if name in self.EXTERNAL:
                     return self.EXTERNAL[name](*args, **kwargs)
                 if name.endswith("get_is_using_hardware"):
